@@ -102,6 +102,8 @@ NextLexem(input, st0) ==
                        [] low = <<"a","n","d">> -> [lx |-> Lx("and", <<>>), st |-> st, again |-> FALSE]
                        [] low = <<"n","o","t">> /\ st.aw -> [lx |-> Lx("not", <<>>), st |-> st, again |-> FALSE]
                        [] low = <<"o","r","d","e","r">> -> [lx |-> Lx("order", <<>>), st |-> [st EXCEPT !.aw = TRUE], again |-> FALSE]
+                       \* (GROUP BY keys may be arithmetic expressions; a search root may be called `group` too)
+                       [] low = <<"g","r","o","u","p">> -> [lx |-> Lx("raw", s), st |-> (IF st.psr THEN st ELSE [st EXCEPT !.aw = TRUE]), again |-> FALSE]
                        [] low = <<"b","y">> -> [lx |-> Lx("by", <<>>), st |-> st, again |-> FALSE]
                        [] low = <<"a","s","c">> -> [lx |-> NoLexem, st |-> st, again |-> TRUE]
                        [] low = <<"d","e","s","c">> -> [lx |-> Lx("desc", <<>>), st |-> st, again |-> FALSE]
